@@ -497,7 +497,7 @@ class ConditionalGaussianPDF:
         """
         cond_entropy = self.conditional_entropy(p_x, **kwargs)
         p_y = self.affine_marginal_transformation(p_x, **kwargs)
-        mutual_info = cond_entropy - p_y.entropy()
+        mutual_info = p_y.entropy() - cond_entropy
         return mutual_info
 
     def update_Sigma(self, Sigma_new: Float[Array, "R Dy Dy"]):
@@ -1295,7 +1295,7 @@ class ConditionalIdentityGaussianPDF(ConditionalGaussianPDF):
         """
         cond_entropy = self.conditional_entropy(p_x, **kwargs)
         p_y = self.affine_marginal_transformation(p_x, **kwargs)
-        mutual_info = cond_entropy - p_y.entropy()
+        mutual_info = p_y.entropy() - cond_entropy
         return mutual_info
 
     def update_Sigma(self, Sigma_new: Float[Array, "R Dy Dy"]):
